@@ -4,6 +4,7 @@ import (
 	"context"
 	"fmt"
 	"io"
+	"net"
 	"os/exec"
 	"strings"
 	"sync"
@@ -92,6 +93,12 @@ type ProcRunner struct {
 	KillHonoursCtx bool
 	KillGrace      time.Duration
 	KillAborted    atomic.Int32
+	// ForwardTCP: the host reaches the plugin's unix sockets only through TCP forwarders this runner
+	// opens (a runner for a sandbox or another machine): PluginToHost turns ("unix", path) into
+	// ("tcp", 127.0.0.1:port) -- the network KIND changes, not only the address.
+	ForwardTCP bool
+	fwdMu      sync.Mutex
+	fwd        map[string]net.Listener
 
 	Starts, Kills atomic.Int32
 	// translation calls go-plugin made (the runner is harness code: counting
@@ -120,7 +127,14 @@ func NewProcRunner(spec *exec.Cmd, path string, args ...string) (*ProcRunner, er
 
 func (r *ProcRunner) Start(ctx context.Context) error { r.Starts.Add(1); return r.Cmd.Start() }
 func (r *ProcRunner) Wait(ctx context.Context) error {
-	r.waitOnce.Do(func() { r.waitErr = r.Cmd.Wait() })
+	r.waitOnce.Do(func() {
+		r.waitErr = r.Cmd.Wait()
+		r.fwdMu.Lock()
+		for _, ln := range r.fwd {
+			ln.Close()
+		}
+		r.fwdMu.Unlock()
+	})
 	return r.waitErr
 }
 func (r *ProcRunner) Kill(ctx context.Context) error {
@@ -152,6 +166,40 @@ func (r *ProcRunner) ID() string {
 func (r *ProcRunner) Diagnose(context.Context) string { return "" }
 func (r *ProcRunner) PluginToHost(n, a string) (string, string, error) {
 	r.P2HCalls.Add(1)
+	if r.ForwardTCP && n == "unix" {
+		r.fwdMu.Lock()
+		defer r.fwdMu.Unlock()
+		if ln, ok := r.fwd[a]; ok {
+			return "tcp", ln.Addr().String(), nil
+		}
+		ln, err := net.Listen("tcp", "127.0.0.1:0")
+		if err != nil {
+			return "", "", err
+		}
+		if r.fwd == nil {
+			r.fwd = map[string]net.Listener{}
+		}
+		r.fwd[a] = ln
+		go func() {
+			for {
+				c, err := ln.Accept()
+				if err != nil {
+					return
+				}
+				go func() {
+					u, err := net.Dial("unix", a)
+					if err != nil {
+						c.Close()
+						return
+					}
+					go func() { io.Copy(u, c); u.Close() }()
+					io.Copy(c, u)
+					c.Close()
+				}()
+			}
+		}()
+		return "tcp", ln.Addr().String(), nil
+	}
 	if n == "unix" && r.PluginPrefix != "" && strings.HasPrefix(a, r.PluginPrefix) {
 		return n, r.HostPrefix + a[len(r.PluginPrefix):], nil
 	}
